@@ -1,6 +1,7 @@
 import Wx.Disc.C14
 import Wx.Disc.C14wf
 import Wx.Glob.C03
+import Wx.Disc.C14Inst
 /-! # C14 — Ignore-file discovery finds exactly the applicable files and prunes ignored dirs
 
 > Discovery from a project origin returns every non-empty .gitignore, .ignore and .hgignore, plus the origin-level
@@ -42,5 +43,13 @@ theorem every_applicable_directory_found (e : Env) (t : T) (anc : List Dir) (par
     themselves (a directory's own files, which may contain `*`, are loaded after it has been judged), on well-formed trees -/
 theorem walker_computes_the_specification' (e : Env') (t : T) (L anc : List Dir) (par : Dir) (h : AncOk L anc par) (hw : wf t = true)
     (hf : ∀ x ∈ L, ¬ (par ++ [t.name]) <+: x) : ∀ x, x ∈ visit' e L par t ↔ x ∈ L ∨ x ∈ sv' e anc par t := visit_spec' e t L anc par h hw hf
+
+/-- **C14 ∘ C03**: instantiate the filter with C03's specification of `match_path` (nearest-ancestor-first over the loaded
+    directories, `nv k d` = what the files stored in `k` say about `d`): the scoping law is C03's theorem, and the walker
+    computes the discovery specification -/
+theorem with_the_real_filter_semantics (nv : Dir → Dir → Option Bool) (rel : Dir → Bool) (t : T) (L anc : List Dir) (par : Dir)
+    (h : AncOk L anc par) (hw : wf t = true) (hf : ∀ x ∈ L, ¬ (par ++ [t.name]) <+: x) :
+    ∀ x, x ∈ visit' (specEnv nv rel) L par t ↔ x ∈ L ∨ x ∈ sv' (specEnv nv rel) anc par t :=
+  discovery_with_c03_filter nv rel t L anc par h hw hf
 
 end Props.C14
